@@ -3,7 +3,7 @@
    carries a [Consume] marker in front of the events caused by each client
    message after the startup exchange).  They speak about the client's frames
    and the observed events only, not about the model's session logic. *)
-Require Import Wire.Bytes Spec.BackendSpec Wire.Errors Wire.Framing Wire.Session Wire.Case.
+Require Import Wire.Bytes Spec.BackendSpec Wire.Errors Wire.Framing Wire.Session Wire.Transport Wire.Copy Wire.Codec Wire.Case.
 From Coq Require Import String.
 Local Open Scope string_scope.
 Local Open Scope list_scope.
@@ -733,3 +733,64 @@ Definition oracle_C19 (sc : scase) (log : list ev) : bool :=
    | None => negb (existsb (fun e => match e with CbTerminate => true | _ => false end) log)
    | Some _ => true
    end).
+
+(* ---------- C09: row values decoded by an independent decoder ---------- *)
+Definition the_stmt (sc : scase) : option stmt :=
+  match sc_parse sc with
+  | (_, POk [s]) :: _ => Some s
+  | _ => None
+  end.
+
+Fixpoint fields_ok (cols : list column) (fmts : list Z) (fs : list (option bytes)) (vs : list value) : bool :=
+  match cols, fmts, fs, vs with
+  | [], [], [], [] => true
+  | c :: cr, f :: fr, x :: xr, v :: vr =>
+      (match x, dval_of_value v with
+       | None, Some DNull => true
+       | Some b, Some d =>
+           (match d with DNull => false | _ => true end) &&
+           (match decode_value (c_oid c) f b with
+            | Some d' => match d, d' with
+                         | DInt a, DInt a' => a =? a'
+                         | DBool a, DBool a' => Bool.eqb a a'
+                         | DBytes a, DBytes a' => bytes_eqb a a'
+                         | _, _ => false
+                         end
+            | None => false
+            end)
+       | _, _ => false
+       end) && fields_ok cr fr xr vr
+  | _, _, _, _ => false
+  end.
+
+Record c9state := { c9_fmts : option (list Z); c9_left : list (list value); c9_ok : bool }.
+
+Definition c9_step (s : stmt) (rows : list (list value)) (st : c9state) (m : bmsg) : c9state :=
+  if negb (c9_ok st) then st else
+  match m with
+  | BRowDesc cds =>
+      {| c9_fmts := Some (map cd_fmt cds); c9_left := rows;
+         c9_ok := (lenZ cds =? lenZ (s_cols s)) &&
+                  list_names_ok (s_cols s) cds |}
+  | BDataRow fs =>
+      match c9_fmts st, c9_left st with
+      | Some fmts, vs :: r =>
+          {| c9_fmts := c9_fmts st; c9_left := r; c9_ok := fields_ok (s_cols s) fmts fs vs |}
+      | _, _ => {| c9_fmts := c9_fmts st; c9_left := []; c9_ok := false |}
+      end
+  | BComplete _ =>
+      {| c9_fmts := None; c9_left := []; c9_ok := match c9_left st with [] => true | _ => false end |}
+  | _ => st
+  end.
+
+(* every row of the (single, always succeeding) statement arrives as one DataRow
+   whose field count equals the RowDescription's and whose fields decode, in the
+   announced format, to the values written; NULLs are -1 *)
+Definition oracle_C09 (sc : scase) (log : list ev) : bool :=
+  no_crash log &&
+  match the_stmt sc with
+  | None => true
+  | Some s =>
+      let rows := flat_map (fun o => match o with HRow vs => [vs] | _ => [] end) (s_prog s) in
+      c9_ok (fold_left (c9_step s rows) (outs log) {| c9_fmts := None; c9_left := []; c9_ok := true |})
+  end.
